@@ -1,21 +1,25 @@
-(* C01 -- generated moves are exactly the legal moves.  PARTIAL.
-   The full statement is `movegen_exact_statement` below; it is NOT proved as a whole.  Proved: the KING-SAFETY half of
-   soundness for every block of the generator (C01_no_generated_move_leaves_the_king_attacked: pin sets, check mask,
-   king steps, castling incl. the pinned Chess960 rook, en passant incl. the two-pawn horizontal discovery -- proofs/
-   PinFacts.v, LegalPin.v, LegalKing.v, LegalCastle.v, LegalEp.v, GenLegal.v), on every position satisfying the invariant
-   of Closure.v and the en-passant consistency `ep_ok_b` (without which the statement is FALSE: C01_ep_consistency_is_needed).
-   SOUNDNESS IS PROVED IN FULL (C01_movegen_sound: every generated move is a legal move of the rules, both frames): block by
-   block the move is in the rules' pseudo-legal list (PseudoPieces/PseudoPawns/PseudoCastle.v), the rules' filter is the engine's
-   test (LegalBridge.v), the Black frame by mirror symmetry of the rules (RulesMirror.v, SetTurn.v).
-   Open: completeness (nothing missing); proved so far for king steps (C01_king_steps_complete).
-   Also proved and listed here: the second half of the statement (NoDup: no move is emitted twice, and every
-   promotion comes once per promotion piece and only on the last rank -- proofs/GenNoDup.v) for every position passing
-   `good_pos_b`, and the closed lemmas the first half rests on: the slider lookups (C10), the one-step shifts without
-   wrap-around, the pawn attack sets.  Until the refinement is closed, "equals the rules" is decided
-   by the correspondence run against the executable specification spec/Rules.v (a test, not a proof). *)
+(* C01 -- generated moves are exactly the legal moves.
+   PROVED on the model (C01_movegen_exact): for every position satisfying the invariant `Inv0` of Closure.v (executable form
+   `inv_b`: well-formed boards, one king a side, castling rights backed by rook and king, the side not to move not in check) and
+   the en-passant consistency `ep_ok_b` (the en-passant square is consistent with the double push just played), standard chess
+   or Chess960, either side to move: a move is generated IF AND ONLY IF it is the encoding of a legal move of the rules
+   (spec/Rules.v: pseudo-legal by the rules' own lists and the mover's king not attacked in the rules' successor), and no move is
+   generated twice; every promotion comes once per promotion piece.  Without `ep_ok_b` soundness is FALSE
+   (C01_ep_consistency_is_needed: a parser-accepted, retro-inconsistent en-passant square).  Both premises are kept by every
+   generated move and null move (C02), so they hold on every position reached by play from a position satisfying them, and they
+   are evaluated (true) on every position of D the correspondence run uses.
+   How: soundness = king safety of every block (PinFacts, LegalPin, LegalKing, LegalCastle, LegalEp, GenLegal) + pseudo-legality
+   by the rules' lists (PseudoPieces, PseudoPawns, PseudoCastle) + the filter bridge (LegalBridge); completeness = the converse pin
+   theory (LegalConv: a safe move's target is in `allowed`, a pinned man that moves safely stays on its pin line, double check
+   leaves no safe non-king move), per block CompletePieces, CompletePawns, ConvEp, ConvKing, CompleteCastle, assembled in
+   MovegenComplete; the Black frame by mirror symmetry of the rules (RulesMirror, SetTurn).
+   The statement `movegen_exact_statement` below (over the executable domain test in_D, as a Permutation of lists) differs from the
+   proved theorem only in (a) using in_D instead of the invariant (that in_D implies inv_b and ep_ok_b is evaluated, not proved) and
+   (b) needing NoDup of the SPECIFICATION's list for the Permutation form (C01_movegen_exact_as_permutation takes it as a premise).
+   The tie of the model to the Rust generator is the correspondence run against the executable specification. *)
 From Coq Require Import NArith ZArith List Bool Permutation String.
 From Rawr Require Import Consts Bits Magic Position MoveGen MakeMove MakeStages Fen Uci Rules Abs MagicFacts ShiftFacts AbsFacts MakeFacts GenSane GenNoDup NoKingCapture
-                         Closure EpRetro LegalKing LegalCastle LegalEp LegalBlocks GenLegal MovegenSound ConvKing.
+                         Closure EpRetro LegalKing LegalCastle LegalEp LegalBlocks GenLegal MovegenSound ConvKing MovegenComplete.
 Import ListNotations.
 Local Open Scope N_scope.
 
@@ -118,6 +122,21 @@ Theorem C01_generated_moves_are_pseudo_legal : forall p m, Inv0 p -> In m (legal
 Proof. exact generated_pseudo. Qed.
 Theorem C01_movegen_sound : forall p m, Inv0 p -> ep_ok_b p = true -> In m (legal_moves p) -> In m (spec_legal p).
 Proof. exact movegen_sound. Qed.
+(* ---- completeness and the equivalence *)
+Theorem C01_movegen_complete : forall p sm, Inv0 p -> ep_ok_b p = true -> In sm (legal (abs_state p)) -> In (enc p sm) (legal_moves p).
+Proof. exact movegen_complete. Qed.
+Theorem C01_movegen_exact : forall p, Inv0 p -> ep_ok_b p = true ->
+  (forall m, In m (legal_moves p) <-> In m (spec_legal p)) /\ NoDup (legal_moves p).
+Proof. exact movegen_exact. Qed.
+Theorem C01_movegen_exact_as_permutation : forall p, Inv0 p -> ep_ok_b p = true -> NoDup (spec_legal p) ->
+  Permutation (legal_moves p) (spec_legal p) /\ NoDup (legal_moves p).
+Proof.
+  intros p I He Hs. destruct (movegen_exact p I He) as (Hiff & Hnd). split; [|exact Hnd].
+  apply NoDup_Permutation; [exact Hnd|exact Hs|exact Hiff].
+Qed.
+Theorem C01_executable_premises_sound : forall p, inv_b p = true -> Inv0 p.
+Proof. intros p H. exact (Inv_Inv0 p (inv_b_sound p H)). Qed.
+
 (* ---- completeness, first block: a king step that does not leave the king attacked is generated (and conversely) *)
 Theorem C01_king_steps_complete : forall u p b, Inv0 p ->
   let k := lsb (N.land (kings p) (c_us p)) in
@@ -185,3 +204,7 @@ Print Assumptions C01_ep_consistency_is_needed.
 Print Assumptions C01_generated_moves_are_pseudo_legal.
 Print Assumptions C01_movegen_sound.
 Print Assumptions C01_king_steps_complete.
+Print Assumptions C01_movegen_complete.
+Print Assumptions C01_movegen_exact.
+Print Assumptions C01_movegen_exact_as_permutation.
+Print Assumptions C01_executable_premises_sound.
